@@ -158,6 +158,7 @@ class Param():
         self.param_updater.start()
 
         self.cf.disconnected.add_callback(self._disconnected)
+        self.cf.connection_failed.add_callback(self._connection_failed)
         self.cf.connection_requested.add_callback(self._connection_requested)
 
         self.all_updated = Caller()
@@ -292,6 +293,12 @@ class Param():
         self.toc = Toc()
         self.values = {}
         self._initialized.clear()
+
+    def _connection_failed(self, uri, message):
+        """The link was lost before the connection was established"""
+        # A request that was sent on this link will never be answered, do not
+        # let it block the updater for the next connection
+        self.param_updater.close()
 
     def _disconnected(self, uri):
         """Disconnected callback from Crazyflie API"""
